@@ -75,3 +75,17 @@ package parse
 //@   loop 1:
 //@     invariant tokOK(deref(t)) && t.errt == old(t.errt) && t.errt.qOrig == old(t.errt.qOrig) && deref(t.errt) == old(deref(t.errt)) && len(t.q) <= old(len(t.q)) && unchanged(t)
 //@     decreases len(t.q)
+
+// ---------------------------------------------------------------------------
+// Filter terms (C06)
+
+//@ func (q *FilterMatch) MatchString(value string) (r bool)
+//@   props C06
+//@   requires q != nil
+//@   ensures q.Regexp == nil ==> (r <==> q.Lit == value)
+//@   ensures q.Regexp != nil ==> (r <==> regexp.MatchString(q.Regexp, value))
+
+//@ func (q *FilterMatch) Match(value []byte) (r bool)
+//@   props C06
+//@   requires q != nil
+//@   ensures q.Regexp == nil ==> (r <==> q.Lit == string(value))
